@@ -36,10 +36,12 @@ def gen_sample(rng, leaves, levels):
     nan_rate = rng.choice([0, 0, 0.1, 0.4])
     vals = [None if rng.random() < nan_rate else v for v in vals]
     unknown = rng.random() < 0.2
+    numeric_leaves = all(l.isdigit() for l in leaves)
     if unknown:
         for _ in range(rng.randint(1, 3)):
-            vals[rng.randrange(n)] = rng.choice(["mystery", "other_unknown"])
-    if rng.random() < 0.1:
+            # with a numeric hierarchy the unknown value may be numeric too (a number no level mentions)
+            vals[rng.randrange(n)] = rng.choice(["97", "98"] if (numeric_leaves and rng.random() < 0.6) else ["mystery", "other_unknown"])
+    if rng.random() < (0.6 if numeric_leaves else 0.1):
         vals = [v if v is None or not v.isdigit() else int(v) for v in vals]     # numeric column -> StringDiscretizer
     return vals, unknown
 
@@ -150,9 +152,14 @@ def run_case(drv, rng, stats):
                 fail("a rare value was merged into a group that is not one of its ancestors", value=leaf, leader=leader, ancestors=anc)
                 break
     # accumulated shares: an ancestor group rarer than min_freq is merged further up (unless it is a top)
-    with warnings.catch_warnings():
-        warnings.simplefilter("ignore")
-        Xt = obj.transform(X)
+    try:
+        with warnings.catch_warnings():
+            warnings.simplefilter("ignore")
+            Xt = obj.transform(X)
+    except Exception as e:
+        fail(f"transform of the training frame raised {type(e).__name__} after a successful fit", error=str(e)[:300],
+             unknown_handling=handling)
+        return fails
     out = collections.Counter(fitgen.cell(v) for v in Xt["f"].tolist())
     for lab, k in out.items():
         if lab is None or lab == core.canon(obj.str_nan):
